@@ -1459,6 +1459,13 @@ func (p *Posix) CompleteMultipartUpload(ctx context.Context, input *s3.CompleteM
 		return nil, err
 	}
 
+	// completing the upload replaces the object: honour legal hold and
+	// retention the way PutObject does
+	err = auth.CheckObjectAccess(ctx, bucket, acct.Access, []types.ObjectIdentifier{{Key: &object}}, true, p)
+	if err != nil {
+		return nil, err
+	}
+
 	objdir := filepath.Join(metaTmpMultipartDir, fmt.Sprintf("%x", sum))
 
 	checksums, err := p.retrieveChecksums(nil, bucket, filepath.Join(objdir, uploadID))
